@@ -139,7 +139,7 @@ def build(js):
     return prf
 
 
-def run_check(thy, js, no_gaps, compute_only=False):
+def run_check(thy, js, no_gaps, compute_only=False, want_ths=False):
     prf = build(js)
     rpt = ProofReport()
     try:
@@ -149,7 +149,22 @@ def run_check(thy, js, no_gaps, compute_only=False):
         res, oc = None, "rejected"
     except Exception as e:     # AssertionError, AttributeError, IndexError ...: a refusal by a foreign exception
         res, oc = None, "raised:" + type(e).__name__
-    return {"oc": oc, "final": enc_s(res), "gaps": [enc_s(g) for g in rpt.gaps] if oc == "accepted" else []}
+    out = {"oc": oc, "final": enc_s(res), "gaps": [enc_s(g) for g in rpt.gaps] if oc == "accepted" else []}
+    if want_ths:
+        # the sequent every item carries after an accepted check (check_proof assigns them in place)
+        out["ths"] = positions(prf.items, []) if oc == "accepted" else []
+    return out
+
+
+def positions(items, prefix):
+    out = []
+    for i, it in enumerate(items):
+        pos = prefix + [i]
+        if it.rule != "" and isinstance(it.th, Thm):
+            out.append({"p": pos, "s": enc_s(it.th)})
+        if it.rule == "subproof" and it.subproof is not None:
+            out += positions(it.subproof.items, pos)
+    return out
 
 
 _ext_n = [0]
@@ -226,11 +241,11 @@ def replay(vec_path, out_path, tid0=0, src="tlc", fx_path=None):
             ev = {"tid": tid0 + n, "key": "obj:%s" % digest([js, v["exts"]]), "src": src, "fx": fx, "prf": js}
             if js:
                 ev["ng"] = run_check(thy, js, True)
-                ev["g"] = run_check(thy, js, False)
+                ev["g"] = run_check(thy, js, False, want_ths=True)
                 ev["co"] = {"oc": run_check(thy, js, False, compute_only=True)["oc"]}
                 ev["exts"] = [run_extend(thy, js, s) for s in v["exts"]]
             else:                    # an extension offered without proof
-                na = {"oc": "n/a", "final": NONE_S, "gaps": []}
+                na = {"oc": "n/a", "final": NONE_S, "gaps": [], "ths": []}
                 ev["ng"], ev["g"], ev["co"] = na, na, {"oc": "n/a"}
                 ev["exts"] = [run_extend(thy, js, s, with_proof=False) for s in v["exts"]]
             f.write(json.dumps(ev, separators=(",", ":")) + "\n")
@@ -336,6 +351,14 @@ class Gen:
             out += self.all_items(it["sub"])
         return out
 
+    def with_pos(self, items, prefix, anc=()):
+        """(item, position, enclosing blocks) for every item, in textual order."""
+        out = []
+        for i, it in enumerate(items):
+            out.append((it, prefix + [i], list(anc)))
+            out += self.with_pos(it["sub"], prefix + [i], tuple(anc) + (it,))
+        return out
+
     def damage(self, top):
         r = self.rnd
         flat = self.all_items(top)
@@ -352,7 +375,23 @@ class Gen:
                 it["prevs"][r.randrange(len(it["prevs"]))] = pos[:-1] + [pos[-1] + r.randrange(n)]
                 if it["th"]["c"] == NONE_P or r.random() < 0.3:
                     it["th"] = _sq([], self.prop(1))
-        elif k < 0.22:                                   # identifier
+        elif k < 0.20:                                   # citation INTO a closed block (earlier sibling of the item or of an ancestor)
+            where = self.with_pos(top, [])
+            cands = []
+            for x, px, anc in where:
+                if not x["prevs"]:
+                    continue
+                inner = [q for y, q, _ in where
+                         if any(len(q) > m and q[:m - 1] == px[:m - 1] and q[m - 1] < px[m - 1] for m in range(1, len(px) + 1))]
+                if inner:
+                    cands.append((x, anc, inner))
+            if cands:
+                x, anc, inner = r.choice(cands)
+                x["prevs"][r.randrange(len(x["prevs"]))] = list(r.choice(inner))
+                if r.random() < 0.8:                     # let the new result propagate: nothing above it states a sequent
+                    for y in [x] + anc:
+                        y["th"] = NONE_S
+        elif k < 0.30:                                   # identifier
             m = r.random()
             if m < 0.4:
                 it["id"] = it["id"][:-1] + [it["id"][-1] + r.choice([1, 2, -1, 5])]
@@ -363,7 +402,7 @@ class Gen:
                 it["id"] = list(r.choice(ids))
             else:
                 it["id"] = it["id"][:-1] + [-1 - r.randint(0, 2)]
-        elif k < 0.50:                                   # citation
+        elif k < 0.52:                                   # citation
             cited = [x for x in flat if x["prevs"]]
             if cited:
                 it = r.choice(cited)
